@@ -7,7 +7,7 @@ use crate::appdns;
 use crate::corpus::*;
 use crate::driver::{Cmd, MAC_SRV};
 use crate::engine::{self, product, unrank, Item, Report, RunOpts, Sink};
-use crate::props::{cfg_lists, cfg_plain, sweep_frames};
+use crate::props::{cfg_plain, sweep_frames};
 use crate::wire::*;
 
 pub fn run(rep: &mut Report, thorough: bool) {
@@ -17,8 +17,7 @@ pub fn run(rep: &mut Report, thorough: bool) {
         "replies larger than ~16 KiB cannot be elicited with <= 4096-byte input frames; 'up to 64 KiB' in the quantifier is unreachable".into(),
     ];
     let cookies = learn_cookies(&cfg_plain(), &[flow4(40000, 80), flow6(40000, 80)]).unwrap_or_default();
-    for cfg in [cfg_plain(), cfg_lists()] {
-        let tag = if cfg.self_ips.is_empty() { "plain" } else { "lists" };
+    for (tag, cfg) in crate::props::cfg_variants() {
         // UDP: source port sweep for STUN (v4, v6), DNS (v4), RPC (v4, v6), HTTP, SMB
         let pls = payloads();
         let udp_pl: Vec<&Payload> = pls.iter().filter(|p| p.via != Via::TcpOnly && p.answered).collect();
